@@ -12,6 +12,7 @@ key order and result count exact. Byte-level differences are counted as presenta
 import random
 import re
 
+import cli_c15
 import climon
 import driver
 import navgen
@@ -160,6 +161,9 @@ def check_yq(rep, binary, doc, prog, flags, informat):
         return
     for x, y in zip(va, vb):
         if not cmp_equal(x, y):
+            dc = cli_c15.diff_class(x, y)
+            if dc == "str_trailing_newline_count" and (cli_c15.FOLDED_KEEP.search(a.out) or cli_c15.FOLDED_KEEP.search(b.out) or cli_c15.FOLDED_KEEP.search(doc)):
+                icls += ":folded_keep_trailing_newline_count"
             rep.violation("C27:yq:value_differs:" + ("json" if json_out else "yaml") + ":" + icls,
                           f"yq {flags} {prog!r}: {ra} vs {rb}: {first_diff(x, y)}", replay)
             return
